@@ -1,2 +1,3 @@
 //! Independent readers of serializer output (no xot, no xmlparser).
 pub mod xmltok;
+pub mod htmltok;
